@@ -67,7 +67,25 @@ pub enum Spelling {
 	HexEsc,
 	/// a backslash-newline continuation (skips the following white space) after the first character
 	Continuation,
+	/// the literal reaches the macro through a `macro_rules!` that captured it as `$l:literal`
+	/// (rustc hands it over wrapped in an invisible group)
+	FwdLiteral,
+	/// ... captured as `$e:expr`
+	FwdExpr,
 }
+
+/// Source text of the one macro invocation of a case.
+pub fn invocation(c: &Case) -> String {
+	let lit = spell(&c.text, c.spelling).unwrap();
+	match c.spelling {
+		Spelling::FwdLiteral => format!("fwd_l!({}, {lit})", c.mac.name()),
+		Spelling::FwdExpr => format!("fwd_e!({}, {lit})", c.mac.name()),
+		_ => format!("iref::{}!({lit})", c.mac.name()),
+	}
+}
+
+const FWD_MACROS: &str = "macro_rules! fwd_l { ($m:ident, $l:literal) => { iref::$m!($l) }; }\nmacro_rules! fwd_e { ($m:ident, $e:expr) => { iref::$m!($e) }; }\n";
+
 
 fn is_plain(c: char) -> bool {
 	!c.is_control() && c != '\u{2028}' && c != '\u{2029}' && c != '\u{FEFF}' && !('\u{200B}'..='\u{200F}').contains(&c) && !('\u{202A}'..='\u{202E}').contains(&c) && !('\u{2066}'..='\u{2069}').contains(&c)
@@ -76,7 +94,7 @@ fn is_plain(c: char) -> bool {
 /// Rust source spelling of a string literal. None when the spelling cannot express the text.
 pub fn spell(text: &str, sp: Spelling) -> Option<String> {
 	match sp {
-		Spelling::Escaped => {
+		Spelling::Escaped | Spelling::FwdLiteral | Spelling::FwdExpr => {
 			let mut s = String::from("\"");
 			for c in text.chars() {
 				match c {
@@ -272,6 +290,12 @@ pub fn cases(refs: &Refs, quick: bool, warm: bool) -> Vec<Case> {
 					}
 				}
 			}
+			// the same invocation reached through a declarative macro that forwards the literal
+			if i % 40 == 2 || t.len() < 5 {
+				for sp in [Spelling::FwdLiteral, Spelling::FwdExpr] {
+					out.push(Case { mac, text: t.clone(), spelling: sp, expect });
+				}
+			}
 		}
 	}
 	out
@@ -325,13 +349,13 @@ fn mkv(c: &Case, what: &str) -> Violation {
 /// Compile program 1 (all invocations) and return the set of 1-based lines carrying an error.
 fn acceptance_set(ctx: &Ctx, dir: &Path, cs: &[Case]) -> Result<BTreeSet<usize>, String> {
 	let mut src = String::from("#![allow(dead_code)]\n");
-	// invocation i is on line i + 2
+	src.push_str(FWD_MACROS);
+	// invocation i is on line i + 4
 	// (a literal spelled with a continuation spans two source lines: real line -> invocation)
 	let mut line_to_case: std::collections::BTreeMap<usize, usize> = std::collections::BTreeMap::new();
-	let mut cur_line = 2usize;
+	let mut cur_line = 2usize + FWD_MACROS.matches('\n').count();
 	for (i, c) in cs.iter().enumerate() {
-		let lit = spell(&c.text, c.spelling).unwrap();
-		let item = format!("const C{i}: &iref::{} = iref::{}!({lit});\n", c.mac.ty(), c.mac.name());
+		let item = format!("const C{i}: &iref::{} = {};\n", c.mac.ty(), invocation(c));
 		let n = item.matches('\n').count();
 		for k in 0..n {
 			line_to_case.insert(cur_line + k, i);
@@ -362,13 +386,22 @@ fn acceptance_set(ctx: &Ctx, dir: &Path, cs: &[Case]) -> Result<BTreeSet<usize>,
 		}
 		let mut located = false;
 		for sp in m["spans"].as_array().cloned().unwrap_or_default() {
-			if sp["file_name"].as_str().map(|f| f.ends_with("prog1.rs")).unwrap_or(false) {
-				if let Some(ln) = sp["line_start"].as_u64() {
-					if let Some(i) = line_to_case.get(&(ln as usize)) {
-						lines.insert(i + 2);
-						located = true;
+			// the span itself, then the call sites of the macro expansions it comes from
+			let mut cur = sp;
+			for _ in 0..8 {
+				if cur["file_name"].as_str().map(|f| f.ends_with("prog1.rs")).unwrap_or(false) {
+					if let Some(ln) = cur["line_start"].as_u64() {
+						if let Some(i) = line_to_case.get(&(ln as usize)) {
+							lines.insert(i + 2);
+							located = true;
+						}
 					}
 				}
+				let next = cur["expansion"]["span"].clone();
+				if next.is_null() {
+					break;
+				}
+				cur = next;
 			}
 		}
 		if !located {
@@ -431,10 +464,10 @@ checker!(check_iri, Iri, |s: &str| iref::Iri::new(s).map_err(|_| ()).map(|x| x.t
 checker!(check_iri_ref, IriRef, |s: &str| iref::IriRef::new(s).map_err(|_| ()).map(|x| x.to_owned()));
 "#,
 	);
+	src.push_str(FWD_MACROS);
 	for i in accepted {
 		let c = &cs[*i];
-		let lit = spell(&c.text, c.spelling).unwrap();
-		src.push_str(&format!("const C{i}: &iref::{} = iref::{}!({lit});\n", c.mac.ty(), c.mac.name()));
+		src.push_str(&format!("const C{i}: &iref::{} = {};\n", c.mac.ty(), invocation(c)));
 	}
 	src.push_str("fn main() {\n\tstd::panic::set_hook(Box::new(|_| {}));\n");
 	for i in accepted {
@@ -528,16 +561,18 @@ pub fn run(ctx: &Ctx) -> Report {
 		r.sample(case_input(c));
 	}
 	judge(ctx, &cs, &mut r);
+	if !r.buckets.is_empty() {
+		attach_histories(ctx, &cs, &mut r);
+	}
 	r.assumptions.push("non-string-literal macro arguments are outside the quantifier".into());
 	r.assumptions.push("rustc/cargo are trusted to report every compile_error! with the span of its invocation".into());
 	r
 }
 
-pub fn replay(ctx: &Ctx, _check: &str, input: &Value) -> Vec<Violation> {
-	let refs = Refs::new(&ctx.root);
+fn parse_case(refs: &Refs, input: &Value) -> Option<Case> {
 	let (mac, text) = match (input["macro"].as_str().and_then(Mac::parse), crate::engine::json_bytes(&input["literal"]).and_then(|b| String::from_utf8(b).ok())) {
 		(Some(m), Some(t)) => (m, t),
-		_ => return vec![],
+		_ => return None,
 	};
 	let spelling = match input["spelling"].as_str() {
 		Some("Raw") => Spelling::Raw,
@@ -545,12 +580,88 @@ pub fn replay(ctx: &Ctx, _check: &str, input: &Value) -> Vec<Violation> {
 		Some("UnicodeEsc") => Spelling::UnicodeEsc,
 		Some("HexEsc") => Spelling::HexEsc,
 		Some("Continuation") => Spelling::Continuation,
+		Some("FwdLiteral") => Spelling::FwdLiteral,
+		Some("FwdExpr") => Spelling::FwdExpr,
 		_ => Spelling::Escaped,
 	};
 	let (f, k) = mac.fam_kind();
 	let expect = refs.valid(f, k, text.as_bytes());
-	let cs = vec![Case { mac, text, spelling, expect }];
+	Some(Case { mac, text, spelling, expect })
+}
+
+/// Replays one invocation: alone in its program, or - when the input names them - after the
+/// invocations listed under "preceded_by" in the same program (a verdict that depends on what
+/// the compiler expanded before).
+pub fn replay(ctx: &Ctx, _check: &str, input: &Value) -> Vec<Violation> {
+	let refs = Refs::new(&ctx.root);
+	let mut cs: Vec<Case> = Vec::new();
+	for p in input["preceded_by"].as_array().cloned().unwrap_or_default() {
+		match parse_case(&refs, &p) {
+			Some(c) => cs.push(c),
+			None => return vec![],
+		}
+	}
+	match parse_case(&refs, input) {
+		Some(c) => cs.push(c),
+		None => return vec![],
+	}
 	let mut r = Report::new();
 	judge(ctx, &cs, &mut r);
-	r.buckets.into_values().flat_map(|b| b.examples).collect()
+	let last = case_input(cs.last().unwrap());
+	r.buckets.into_values().flat_map(|b| b.examples).filter(|v| v.input == last).collect()
+}
+
+fn same_value(mac: Mac, a: &str, b: &str) -> bool {
+	let r = std::panic::catch_unwind(|| match mac {
+		Mac::Uri => matches!((iref::Uri::new(a.as_bytes()), iref::Uri::new(b.as_bytes())), (Ok(x), Ok(y)) if x == y),
+		Mac::UriRef => matches!((iref::UriRef::new(a.as_bytes()), iref::UriRef::new(b.as_bytes())), (Ok(x), Ok(y)) if x == y),
+		Mac::Iri => matches!((iref::Iri::new(a), iref::Iri::new(b)), (Ok(x), Ok(y)) if x == y),
+		Mac::IriRef => matches!((iref::IriRef::new(a), iref::IriRef::new(b)), (Ok(x), Ok(y)) if x == y),
+	});
+	r.unwrap_or(false)
+}
+
+/// A verdict observed in the batch program that the invocation does not show alone in its own
+/// program depends on the invocations expanded before it. Find a short history that reproduces it
+/// (earlier invocations of the same macro on an equivalent value; failing that, everything before)
+/// and record it in the replay input.
+fn attach_histories(ctx: &Ctx, cs: &[Case], report: &mut Report) {
+	let refs = Refs::new(&ctx.root);
+	let keys: Vec<String> = report.buckets.keys().cloned().collect();
+	for key in keys {
+		let ex = report.buckets[&key].examples[0].clone();
+		if ex.check != "macro" {
+			continue;
+		}
+		let Some(case) = parse_case(&refs, &ex.input) else { continue };
+		let want = format!("{}|{}", ex.signature(), ex.observed);
+		let reproduces = |input: &Value| replay(ctx, "macro", input).iter().any(|v| format!("{}|{}", v.signature(), v.observed) == want);
+		if reproduces(&ex.input) {
+			continue;
+		}
+		let Some(pos) = cs.iter().position(|c| c.mac == case.mac && c.text == case.text && c.spelling == case.spelling) else { continue };
+		let related: Vec<Value> = cs[..pos].iter().filter(|c| c.mac == case.mac && c.text != case.text && same_value(c.mac, &c.text, &case.text)).map(case_input).collect();
+		let mut chosen: Option<Vec<Value>> = None;
+		for r in &related {
+			let mut i = ex.input.clone();
+			i["preceded_by"] = json!([r]);
+			if reproduces(&i) {
+				chosen = Some(vec![r.clone()]);
+				break;
+			}
+		}
+		if chosen.is_none() && related.len() > 1 {
+			let mut i = ex.input.clone();
+			i["preceded_by"] = json!(related);
+			if reproduces(&i) {
+				chosen = Some(related.clone());
+			}
+		}
+		if chosen.is_none() {
+			chosen = Some(cs[..pos].iter().map(case_input).collect());
+		}
+		let b = report.buckets.get_mut(&key).unwrap();
+		b.examples[0].input["preceded_by"] = json!(chosen.unwrap());
+		report.count("verdicts_depending_on_earlier_invocations", 1);
+	}
 }
